@@ -865,6 +865,61 @@ func main() {
 		addRegex("ssh_"+k, ep[k])
 	}
 	p("Definition ssh_error_literals : list bytes := %s.", coqBytesList(stringLits("channel/auth.go", "Channel.sshMessageHandler")))
+	// the top-level switch of sshMessageHandler: per case clause the literals tested with
+	// bytes.Contains (in order), whether the clause contains a nested switch (whose literals follow)
+	{
+		fd := funcDecl("channel/auth.go", "Channel.sshMessageHandler")
+		var clauses []string
+		found := false
+		ast.Inspect(fd, func(n ast.Node) bool {
+			sw, ok := n.(*ast.SwitchStmt)
+			if !ok || found {
+				return !found
+			}
+			found = true
+			for _, st := range sw.Body.List {
+				cc := st.(*ast.CaseClause)
+				var lits []string
+				for _, e := range cc.List {
+					ast.Inspect(e, func(m ast.Node) bool {
+						if bl, ok := m.(*ast.BasicLit); ok && bl.Kind == token.STRING {
+							s, _ := strconv.Unquote(bl.Value)
+							lits = append(lits, s)
+						}
+						return true
+					})
+				}
+				var nested []string
+				hasNested := false
+				for _, b := range cc.Body {
+					ast.Inspect(b, func(m ast.Node) bool {
+						if isw, ok := m.(*ast.SwitchStmt); ok {
+							hasNested = true
+							for _, ist := range isw.Body.List {
+								for _, e := range ist.(*ast.CaseClause).List {
+									ast.Inspect(e, func(q ast.Node) bool {
+										if bl, ok := q.(*ast.BasicLit); ok && bl.Kind == token.STRING {
+											s, _ := strconv.Unquote(bl.Value)
+											nested = append(nested, s)
+										}
+										return true
+									})
+								}
+							}
+							return false
+						}
+						return true
+					})
+				}
+				clauses = append(clauses, fmt.Sprintf("(%s, %s, %s)", coqBytesList(lits), coqBool(hasNested), coqBytesList(nested)))
+			}
+			return false
+		})
+		if len(clauses) == 0 {
+			die("sshMessageHandler: switch not found")
+		}
+		p("Definition ssh_error_cases : list (list bytes * bool * list bytes) := [%s].", strings.Join(clauses, "; "))
+	}
 	addRegex("ansi_pattern", constOf("util/bytes.go", "ansi").s)
 	// ---- response / netconf
 	sC("nc_v1dot0_delim", "response/netconf.go", "v1Dot0Delim")
